@@ -1,7 +1,9 @@
 package bftsim
 
 import (
+	"bytes"
 	"fmt"
+	"sort"
 	"strings"
 
 	"github.com/vechain/thor/v2/block"
@@ -41,7 +43,7 @@ type Run struct {
 	Nodes  []*Node
 	Named  map[int]*block.Block
 	NameOf map[thor.Bytes32]int
-	events []string // oracle event tokens
+	events []simEvent
 	Obs    []Obs
 	ObsOp  []int // index of the op behind each observation
 	Errs   []string
@@ -80,11 +82,10 @@ func (r *Run) exec(i int, op Op) {
 			return
 		}
 		if b == nil {
-			bid := best.ID()
-			r.events = append(r.events, fmt.Sprintf("P %x 0 %s 0 0 0", op.Node, hx.HexN(bid[:])))
+			r.events = append(r.events, simEvent{kind: "P", node: op.Node, parent: best.ID()})
 		} else {
 			r.name(b, op.Name)
-			r.events = append(r.events, fmt.Sprintf("P %x %s", op.Node, r.Sim.BlockLine(b)))
+			r.events = append(r.events, simEvent{kind: "P", node: op.Node, blk: b})
 		}
 		r.Obs = append(r.Obs, n.Observe(code, pre, b))
 		r.ObsOp = append(r.ObsOp, i)
@@ -109,7 +110,7 @@ func (r *Run) exec(i int, op Op) {
 			r.Errs = append(r.Errs, fmt.Sprintf("op %d deliver: %v", i, err))
 			return
 		}
-		r.events = append(r.events, fmt.Sprintf("I %x %s", op.Node, r.Sim.BlockLine(b)))
+		r.events = append(r.events, simEvent{kind: "I", node: op.Node, blk: b})
 		r.Obs = append(r.Obs, n.Observe(code, "0", b))
 		r.ObsOp = append(r.ObsOp, i)
 	case "restart":
@@ -118,29 +119,81 @@ func (r *Run) exec(i int, op Op) {
 		}
 		n := r.Nodes[op.Node]
 		n.Restart()
-		r.events = append(r.events, fmt.Sprintf("R %x", op.Node))
+		r.events = append(r.events, simEvent{kind: "R", node: op.Node})
 		r.Obs = append(r.Obs, n.Observe(0, "0", nil))
 		r.ObsOp = append(r.ObsOp, i)
 	}
 }
 
+type simEvent struct {
+	kind   string
+	node   int
+	blk    *block.Block
+	parent thor.Bytes32 // abandoned proposal: the intended parent
+}
+
+// idMap compresses the 32-byte ids of the run into small numbers for the oracle: number * 2^32 + rank, where rank
+// (>= 1) is the position of the id among all ids of the run in byte order. The map is injective, preserves the byte
+// order of ids and the embedded block number — the only things the model uses ids for.
+func (r *Run) idMap() map[thor.Bytes32]uint64 {
+	ids := make([]thor.Bytes32, 0, len(r.Sim.Blocks))
+	for id := range r.Sim.Blocks {
+		ids = append(ids, id)
+	}
+	sort.Slice(ids, func(i, j int) bool { return bytes.Compare(ids[i][:], ids[j][:]) < 0 })
+	m := make(map[thor.Bytes32]uint64, len(ids))
+	for i, id := range ids {
+		m[id] = uint64(block.Number(id))<<32 | uint64(i+1)
+	}
+	return m
+}
+
+func (r *Run) blockLine(m map[thor.Bytes32]uint64, b *block.Block) string {
+	h := b.Header()
+	signer := 0 // validators are handed to the model as index+1 (0 = nobody: the genesis block)
+	if h.Number() > 0 {
+		signer = r.Sim.SignerIndex(h) + 1
+	}
+	return fmt.Sprintf("%x %x %x %s %x", m[h.ID()], m[h.ParentID()], signer, hx.B(h.COM()), h.TotalScore())
+}
+
 // OracleLine renders the whole run for the extracted model:
 // RUN guard L mbp pos total | signer weight .. | genesis block | master .. | event ; event ; ..
 func (r *Run) OracleLine(guard bool) string {
+	m := r.idMap()
 	var b strings.Builder
-	fmt.Fprintf(&b, "RUN %s %x %x 0 0 | | %s |", hx.B(guard), r.Sim.Cfg.L, r.Sim.Cfg.MBP, r.Sim.BlockLine(r.Sim.Genesis))
+	fmt.Fprintf(&b, "RUN %s %x %x 0 0 | | %s |", hx.B(guard), r.Sim.Cfg.L, r.Sim.Cfg.MBP, r.blockLine(m, r.Sim.Genesis))
 	for _, n := range r.Nodes {
-		b.WriteString(" " + r.Sim.AddrN(n.Master))
+		fmt.Fprintf(&b, " %x", n.Master+1)
 	}
-	b.WriteString(" | " + strings.Join(r.events, " ; "))
+	b.WriteString(" |")
+	for i, e := range r.events {
+		if i > 0 {
+			b.WriteString(" ;")
+		}
+		switch {
+		case e.kind == "R":
+			fmt.Fprintf(&b, " R %x", e.node)
+		case e.blk == nil:
+			fmt.Fprintf(&b, " P %x 0 %x 0 0 0", e.node, m[e.parent])
+		default:
+			fmt.Fprintf(&b, " %s %x %s", e.kind, e.node, r.blockLine(m, e.blk))
+		}
+	}
 	return b.String()
 }
 
 // Expected is the implementation's side of the comparison, one observation per event.
 func (r *Run) Expected() []string {
+	m := r.idMap()
 	out := make([]string, len(r.Obs))
 	for i := range r.Obs {
-		out[i] = r.Obs[i].String()
+		o := &r.Obs[i]
+		just := o.JustErr
+		if just == "" {
+			just = fmt.Sprintf("%x", m[o.Justified])
+		}
+		out[i] = fmt.Sprintf("%x %s %x %x %s %s %x %s %s", o.Code, o.Pre, m[o.Best], m[o.Finalized], just, o.Vote, o.Q, hx.B(o.J), hx.B(o.C))
 	}
 	return out
 }
